@@ -1,21 +1,150 @@
-// Package vtime models time.After for instrumented files: the timer is a virtual thread that
-// delivers into a modelled channel at a moment the scheduler chooses, so "the timeout fires
-// first" and "the other case wins" are both explored and no wall clock is involved.
+// Package vtime stands in for package time in instrumented files. Types and constants are
+// aliases of the real ones. Under the scheduler there is no wall clock: time is an abstract
+// counter that only timers and tickers advance, and those are daemon virtual threads that
+// deliver at moments the scheduler chooses — "the timeout fires first" and "the other event
+// wins" are both explored, deterministically and replayably.
 package vtime
 
 import (
 	"time"
+	"unsafe"
 
 	"github.com/welllog/golib/vshim/core"
 	"github.com/welllog/golib/vshim/vchan"
 )
 
-func After(d time.Duration) *vchan.Chan[time.Time] {
-	ch := vchan.Make[time.Time](1)
+type (
+	Duration = time.Duration
+	Time     = time.Time
+	Month    = time.Month
+	Weekday  = time.Weekday
+	Location = time.Location
+)
+
+const (
+	Nanosecond  = time.Nanosecond
+	Microsecond = time.Microsecond
+	Millisecond = time.Millisecond
+	Second      = time.Second
+	Minute      = time.Minute
+	Hour        = time.Hour
+)
+
+var (
+	UTC   = time.UTC
+	Local = time.Local
+)
+
+var epoch = time.Date(2024, 1, 1, 0, 0, 0, 0, time.UTC)
+
+func Date(year int, month Month, day, hour, min, sec, nsec int, loc *Location) Time {
+	return time.Date(year, month, day, hour, min, sec, nsec, loc)
+}
+func Unix(sec, nsec int64) Time { return time.Unix(sec, nsec) }
+
+func Now() Time {
+	if x := core.X; core.Controlled && x != nil {
+		return epoch.Add(Duration(x.Clock))
+	}
+	return time.Now()
+}
+
+func Since(t Time) Duration { return Now().Sub(t) }
+func Until(t Time) Duration { return t.Sub(Now()) }
+
+// advance moves the abstract clock forward to at (never backwards).
+func advance(at int64) {
+	if x := core.X; x != nil && at > x.Clock {
+		x.Clock = at
+	}
+}
+
+func clock() int64 {
+	if x := core.X; x != nil {
+		return x.Clock
+	}
+	return 0
+}
+
+// Sleep: the calling thread passes one scheduling point and the clock jumps.
+func Sleep(d Duration) {
+	if !core.Controlled {
+		time.Sleep(d)
+		return
+	}
+	core.Pause()
+	advance(clock() + int64(d))
+}
+
+func After(d Duration) *vchan.Chan[Time] {
+	ch := vchan.Make[Time](1)
 	if !core.Controlled {
 		go func() { ch.Send(<-time.After(d)) }()
 		return ch
 	}
-	core.Go(func() { ch.Send(time.Time{}) })
+	at := clock() + int64(d)
+	core.GoDaemon(func() {
+		ch.SendWith(epoch.Add(Duration(at)), nil, func() { advance(at) })
+	})
 	return ch
+}
+
+type Ticker struct {
+	C       *vchan.Chan[Time]
+	real    *time.Ticker
+	quit    chan struct{}
+	stopped bool
+}
+
+func NewTicker(d Duration) *Ticker {
+	if d <= 0 {
+		panic("non-positive interval for NewTicker")
+	}
+	t := &Ticker{C: vchan.Make[Time](1)}
+	if !core.Controlled {
+		t.real = time.NewTicker(d)
+		t.quit = make(chan struct{})
+		go func() {
+			for {
+				select {
+				case v := <-t.real.C:
+					t.C.TrySend(v)
+				case <-t.quit:
+					return
+				}
+			}
+		}()
+		return t
+	}
+	start := clock()
+	core.GoDaemon(func() {
+		for k := int64(1); ; k++ {
+			at := start + k*int64(d)
+			// the tick is delivered when the scheduler runs this thread and the buffer has room
+			// (a slow ticker is indistinguishable from dropped ticks for code that reads the time
+			// from the tick); Stop releases the thread
+			if !t.C.SendWith(epoch.Add(Duration(at)), func() bool { return t.stopped }, func() { advance(at) }) {
+				return
+			}
+		}
+	})
+	return t
+}
+
+func (t *Ticker) Stop() {
+	if !core.Controlled {
+		t.real.Stop()
+		select {
+		case <-t.quit:
+		default:
+			close(t.quit)
+		}
+		return
+	}
+	core.Point(core.KStore, unsafe.Pointer(t), nil)
+	if core.Exiting() {
+		return
+	}
+	t.stopped = true
+	core.Done(core.KStore, unsafe.Pointer(t), 1)
 }
